@@ -136,7 +136,7 @@ func Validate(c *core.Ctx, traces []string, name string) (*ValStats, error) {
 	var mu sync.Mutex
 	var wg sync.WaitGroup
 	var firstErr error
-	sem := make(chan struct{}, 12)
+	sem := make(chan struct{}, max(2, nprocs()*3/4))
 	for _, t := range tasks {
 		wg.Add(1)
 		go func(t task) {
